@@ -139,6 +139,10 @@ def _rhs_scalar(g, dt, dom, kind):
     return g.scalar(dt, dom, kind)
 
 
+# integer results of these are exact in the integer type (no overflow for the magnitudes generated: sums stay below 2^63)
+_EXACT_INT_BINARY = {"floor_divide", "div", "divide", "remainder", "fmod", "maximum", "minimum", "sub", "subtract", "add"}
+
+
 def binary(qn, dom=("any", "any"), kw=None, only=None, tensor_rhs=True, py_rhs=True, py_lhs=False, tensor_lhs=True, scale=1.0,
            pyfloat_on_int=False, tail=None):
     """Tensor-Tensor overloads (python scalars are legal operands there too) and *.Scalar overloads.
@@ -160,6 +164,12 @@ def binary(qn, dom=("any", "any"), kw=None, only=None, tensor_rhs=True, py_rhs=T
                     sh = g.shape("nd")
                     return [g.t(sh, dt, da), g.t(sh, dt, db)] + tb(g, dt), kb(g, dt)
                 yield S(f"{vl}same-shape/{dt}", b_same, scale=scale)
+                if dt in ("i32", "i64") and qn.split("::")[1].split(".")[0] in _EXACT_INT_BINARY:
+                    # integer operands beyond 2^24 / 2^53 (exact in the integer type, not in float32 / float64)
+                    def b_big(g, dt=dt, tb=tb, kb=kb):
+                        sh = [g.r.randint(3, 6)]
+                        return [g.t(sh, dt, "big"), g.t(sh, dt, "big_nz" if db == "nz" else "big")] + tb(g, dt), kb(g, dt)
+                    yield S(f"{vl}big-ints/{dt}", b_big, scale=scale)
             for dt in (lead(dts) if not qn.startswith("prims::") else []):
                 def b_bc(g, dt=dt, tb=tb, kb=kb):
                     sa, sb = g.bcast_pair()
